@@ -442,6 +442,7 @@ class Gen:
                     module.setdefault("_outside", []).append(ext)
                     b["attrs"].append("nopass")
                     b["target"] = ext
+                    specifics.append(b["name"])          # (may also be named by a generic binding)
                 else:
                     use_pass = ch.bool(1, 3)
                     sig = [ARG_SIG_TYPES[i % len(ARG_SIG_TYPES)]]
